@@ -96,7 +96,7 @@ NOT_YET = {
 ADDENDA = {
  "C01": " Arms of the generator: wide-extent workloads (values of 200-600 blocks), keys of 65 535-102 400 bytes; JSON documents in serde_json's own output form with patches that succeed without changing the document.",
  "C02": " Workload families: free-form, wide batches (60-300 records in one shard), wide extents (200-600 blocks), mass deletions (> 1024 retirements in one flush), devices filled to their very last block (transactions whose extent ends at the device end). Half of the workloads acknowledge through 2-3 application threads calling flush() at once: every Ok is an acknowledgement of everything completed before the flushes began.",
- "C03": " Workload families: free-form, wide batches (60-300 records in one shard), wide extents (200-600 blocks), mass deletions (> 1024 retirements in one flush, crash points around every fsync of that flush with the most recent write torn), devices filled to their very last block; concurrent flush() callers in half of the workloads.",
+ "C03": " A second stage recovers codec-synthesised images (states a crash can leave: duplicate generations, pending markers, active journals, expired winners, runs of 257-700 keys) and requires the newest complete generation per key and len() == range count == keys exposed. Workload families: free-form, wide batches (60-300 records in one shard), wide extents (200-600 blocks), mass deletions (> 1024 retirements in one flush, crash points around every fsync of that flush with the most recent write torn), devices filled to their very last block; concurrent flush() callers in half of the workloads.",
  "C04": " Two further stages: codec-synthesised images forcing every repair kind, and mass-retirement images (380-1250 duplicated keys of 1-3 blocks, so one recovery spans several journal transactions) cut after/before every recovery fsync with torn marker writes; this stage found and led to the repair of a genuine defect (known_findings.jsonl).",
  "C05": " Further stages: fill cycles, wide-extent workloads, exact partition right after recovering crash images and synthesised images, and at the first acknowledged flush after an outage (transient, site-filtered I/O faults over C09's workloads).",
  "C06": " Device sizes that are not a whole number of blocks are part of both parts.",
@@ -109,11 +109,11 @@ ADDENDA = {
  "C13": " Keys of 65 535-102 400 bytes are part of the generator; one concurrent program in six runs on a store without any memory limit.",
  "C14": " One case in twenty queries ranges over 257-620 index entries with limits around 256/512; another one runs a few keys against a small memory budget (refused zero-copy updates followed by full-range queries).",
  "C16": " Sub-campaign C16S: a reader parked inside its device read while the key is overwritten (stale cache entry of a retired generation), then flush and a follow-up call (update_ttl / persist / get / compare-and-swap); reads live and after restart must see the current generation. The ClockCache campaign includes fills of 300-3500 small entries (several entries per bucket).",
- "C15": " Disturbances: source mtime touched, a foreign file planted at the destination while the migration runs; mass sources (hundreds of duplicated keys); multi-block values whose continuation blocks begin with the image of a legacy record of a key nobody wrote.",
+ "C15": " Disturbances: source mtime touched, a foreign file planted at the destination while the migration runs; mass sources (hundreds of duplicated keys); multi-block values whose continuation blocks begin with the image of a legacy record of a key nobody wrote. Every case without a mid-migration disturbance is repeated through the feox-migrate command built from the current tree (target dir /verif/target-cli): same outcome as migrate(), same destination contents, and on failure the destination path exactly as it was (absent, or the pre-existing file byte for byte).",
  "C17": " Image classes include files whose first 255-513 blocks are zero with foreign bytes behind them (the blank-device scan works in 256-block chunks).",
- "C18": " One program in four: several flush() callers on a device whose record writes fail 3-9 times in a row again and again; hangs are re-run alone up to three times. One program in nine: a slow writer, 1-2 flush() callers and 6-12 readers pinned to one cpu (readers descheduled at arbitrary instructions of get() while the record they hold is retired).",
- "C19": " Further phases: writes waiting for space on a full device until accepted deletes reclaim it; bursts of 64-200 KiB values (bytes, not entries, fill the shard buffer); 0.3-0.9 s of sustained overwriting by 2-4 threads (workers busy across periodic ticks) followed by sparse probes on every shard.",
- "C20": " A last stage runs uninstrumented: DiskIO::batch_write sequences on a slow device (Unix datagram socket pair) with rejected writes and generated stalls; the device must only ever receive submitted bytes (reads done by the kernel are invisible to AddressSanitizer). A second uninstrumented stage drives DiskIO in direct-I/O mode (never selected by the store inside a container) with generated write/read sequences in a child process built with feoxdb's default features, i.e. with jemalloc as the global allocator: reads must return the model's bytes, aligned-buffer accounting must return to its baseline, the child must not die by a signal (a buffer released through the wrong allocator is invisible to the ASan build, which uses the system allocator).",
+ "C18": " Writers of sweeper programs restart the running TTL sweeper with another configuration every 41 calls. One program in four: several flush() callers on a device whose record writes fail 3-9 times in a row again and again; hangs are re-run alone up to three times. One program in nine: a slow writer, 1-2 flush() callers and 6-12 readers pinned to one cpu (readers descheduled at arbitrary instructions of get() while the record they hold is retired).",
+ "C19": " Further phases: writes waiting for space on a full device until accepted deletes reclaim it; bursts of 64-200 KiB values (bytes, not entries, fill the shard buffer); 0.3-0.9 s of sustained overwriting by 2-4 threads (workers busy across periodic ticks) followed by sparse probes on every shard; one case in forty leaves the store idle for 6.5-7.5 s and requires the first sparse write afterwards on the device within 3 s + measured stalls.",
+ "C20": " A last stage runs uninstrumented: DiskIO::batch_write sequences on a slow device (Unix datagram socket pair) with rejected writes and generated stalls; the device must only ever receive submitted bytes (reads done by the kernel are invisible to AddressSanitizer). A second uninstrumented stage drives DiskIO in direct-I/O mode (never selected by the store inside a container) with generated write/read sequences in a child process built with feoxdb's default features, i.e. with jemalloc as the global allocator: reads must return the model's bytes, aligned-buffer accounting must return to its baseline, the child must not die by a signal (a buffer released through the wrong allocator is invisible to the ASan build, which uses the system allocator). Inside the ASan build a further child (C20U) calls the public helpers outside the store - hash_key / murmur3_32 / hash_key_aes_safe / MurmurHasher, AlignedBuffer, apply_json_patch - with exactly sized heap inputs and inputs ending on a page whose successor is inaccessible.",
 }
 
 def main():
@@ -143,7 +143,7 @@ def main():
     }
     manifest = {
         "version": 1,
-        "setup_cmd": "cd /verif/harness && CARGO_NET_OFFLINE=true cargo build --release --offline && cd /verif/harness-dio && CARGO_NET_OFFLINE=true cargo build --release --offline",
+        "setup_cmd": "cd /verif/harness && CARGO_NET_OFFLINE=true cargo build --release --offline && cd /verif/harness-dio && CARGO_NET_OFFLINE=true cargo build --release --offline && cd /repo && CARGO_NET_OFFLINE=true cargo build --release --offline --bin feox-migrate --target-dir /verif/target-cli",
         "hooks": {
             "guard": "--cfg feoxdb_verif",
             "enable": "harness/.cargo/config.toml sets rustflags = [\"--cfg\", \"feoxdb_verif\"]; feoxdb is a path dependency on /repo, so every ./check rebuilds it from the working tree with the hooks compiled in",
